@@ -2,6 +2,7 @@ package main
 
 import (
 	"go/ast"
+	"go/token"
 	"go/types"
 
 	"golang.org/x/tools/go/cfg"
@@ -384,4 +385,103 @@ func ruleFlushComplete(c *Ctx) {
 		}
 	}
 	c.check(errUsed, "write-error-checked", w.Node.Pos(), "the error of aof.Write is tested", "the error of aof.Write(aofbuf) is dropped: a failed write would be acknowledged")
+	// unconditional: with a non-empty buffer every return of flushAOF has passed the write — the only
+	// edge allowed to skip it is the one on which len(aofbuf) is known to be 0
+	isWrite := func(l Loc) bool {
+		for _, w := range writes {
+			if l.Block == w.Block && l.Idx == w.Idx {
+				return true
+			}
+		}
+		return false
+	}
+	emptyEdge := func(b *cfg.Block, si int) bool {
+		for _, f := range fg.edgeFacts(b, si) {
+			be, ok := ast.Unparen(f.E).(*ast.BinaryExpr)
+			if !ok || f.Tag != nil {
+				continue
+			}
+			call, ok := ast.Unparen(be.X).(*ast.CallExpr)
+			if !ok || len(call.Args) != 1 || selField(info, call.Args[0]) != aofbuf {
+				continue
+			}
+			if id, ok := ast.Unparen(call.Fun).(*ast.Ident); !ok || id.Name != "len" {
+				continue
+			}
+			tv, ok := info.Types[be.Y]
+			if !ok || tv.Value == nil || tv.Value.String() != "0" {
+				continue
+			}
+			if (be.Op == token.GTR || be.Op == token.NEQ) && f.Neg || be.Op == token.EQL && !f.Neg {
+				return true
+			}
+		}
+		return false
+	}
+	skip, trail := fg.Reach(PathQuery{Target: func(l Loc) bool { _, ok := l.Node.(*ast.ReturnStmt); return ok }, Avoid: isWrite,
+		EdgeOK: func(b *cfg.Block, si int) bool { return !emptyEdge(b, si) }})
+	if !skip {
+		// falling off the end of the body
+		for _, b := range fg.G.Blocks {
+			if fg.Reachable(b) && len(b.Succs) == 0 && (len(b.Nodes) == 0 || !isReturn(b.Nodes[len(b.Nodes)-1])) {
+				bb := b
+				s2, t2 := fg.Reach(PathQuery{Target: func(l Loc) bool { return l.Block == bb && l.Idx == len(bb.Nodes)-1 }, Avoid: isWrite,
+					EdgeOK: func(x *cfg.Block, si int) bool { return !emptyEdge(x, si) }})
+				if len(bb.Nodes) == 0 {
+					// an empty exit block: reachable iff some predecessor path avoids the write
+					s2, t2 = reachBlockAvoiding(fg, bb, isWrite, emptyEdge)
+				}
+				if s2 {
+					skip, trail = true, t2
+				}
+			}
+		}
+	}
+	if skip {
+		var path []string
+		for _, nd := range trail {
+			path = append(path, c.posStr(nd.Pos()))
+		}
+		c.badPath("write-unconditional", fl.Decl.Pos(), path, "flushAOF can return without passing aof.Write(aofbuf) although the buffer may be non-empty (the only edge allowed to skip the write is len(aofbuf) == 0): the pre-write then acknowledges commands that are still only in memory")
+	} else {
+		c.ok("write-unconditional", fl.Decl.Pos(), true, "every exit of flushAOF passes aof.Write(aofbuf) unless len(aofbuf) == 0")
+	}
+}
+
+// reachBlockAvoiding: block target is reachable from the entry without passing a node for which avoid holds
+// and without taking an edge for which skipEdge holds.
+func reachBlockAvoiding(fg *FlowGraph, target *cfg.Block, avoid func(Loc) bool, skipEdge func(*cfg.Block, int) bool) (bool, []ast.Node) {
+	seen := map[int32]bool{}
+	var trail []ast.Node
+	var walk func(b *cfg.Block) bool
+	walk = func(b *cfg.Block) bool {
+		if seen[b.Index] {
+			return false
+		}
+		seen[b.Index] = true
+		for i, n := range b.Nodes {
+			if avoid(Loc{b, i, n}) {
+				return false
+			}
+		}
+		if b == target {
+			return true
+		}
+		for si, s := range b.Succs {
+			if skipEdge(b, si) {
+				continue
+			}
+			mark := len(trail)
+			if len(b.Nodes) > 0 {
+				trail = append(trail, b.Nodes[len(b.Nodes)-1])
+			}
+			if walk(s) {
+				return true
+			}
+			trail = trail[:mark]
+		}
+		return false
+	}
+	ok := walk(fg.G.Blocks[0])
+	return ok, trail
 }
